@@ -144,6 +144,24 @@ def exit_status(F, rep):
         # the if must be the function's tail (its value is the exit status)
         tail = peel(body["e"]) if body.get("k") == "Block" and body.get("e") is not None else None
         is_tail = tail is final
+        if not is_tail and e is None and body.get("k") == "Block":
+            # the same decision with an early return: `if errs.is_empty() { return Ok(()); }` and the error path as the rest
+            rt = [r for r in nodes(final["t"], "Ret")]
+            ok_then = bool(rt) and all(peel(r.get("e") or {}).get("k") == "Call" and (callee(peel(r["e"])) or "").endswith("Result::Ok") for r in rt)
+            idx = next((i_ for i_, st_ in enumerate(body["stmts"]) if any(x is final for x in nodes(st_))), None)
+            if idx is not None and ok_then:
+                rest = body["stmts"][idx + 1:]
+                te = n_tail(body["e"]) if body.get("e") is not None else {}
+                ok_else = te.get("k") == "Call" and (callee(te) or "").endswith("Result::Err")
+                for st_ in rest:
+                    for lp in nodes(st_, "ForLoop"):
+                        if Flow.mentions(lp["iter"], {errs_hid}):
+                            binds = {b["hid"] for b in pat_bindings(lp["pat"])}
+                            for c in nodes(lp["body"], "Call"):
+                                if (callee(c) or "").endswith("io::stdio::_print") or (callee(c) or "").endswith("_eprint"):
+                                    if any(isinstance(p, dict) and Flow.mentions(p["e"], binds) for _, parts in find_formats(c) for p in parts):
+                                        prints = True
+                is_tail = True
     else:
         is_tail = False
     rep.ob("EXIT", "main|empty=>Ok", ok_then and is_tail, "no errors => main returns Ok(()) (exit status 0)", fn["sp"])
